@@ -391,8 +391,8 @@ def canon_block(block, in_loop=False, is_loop_body=False):
         out.append(st)
     # G: guard followed by more statements -> if/else
     for i, st in enumerate(out):
-        if isinstance(st, ast.If) and not st.orelse and _ends_in_jump(st.body) \
-                and i + 1 < len(out):
+        if isinstance(st, ast.If) and not st.orelse and _always_jumps(st.body) \
+                and not _raises_only(st.body) and i + 1 < len(out):
             rest = out[i + 1:]
             if any(isinstance(x, (ast.FunctionDef, ast.ClassDef)) for x in rest):
                 break
@@ -460,6 +460,25 @@ def _signatures(trees):
                     ps = ps[1:]
                 seen.setdefault(node.name, []).append(ps)
     return {k: v[0] for k, v in seen.items() if all(x == v[0] for x in v)}
+
+
+def _package_private_methods(trees):
+    """private methods (`_name`, first parameter self) whose name is defined exactly once in the
+    package: a call `obj._name(...)` on a plain name in *another* module can only mean that one"""
+    seen = {}
+    for tree in trees:
+        for node in tree.body:
+            if isinstance(node, ast.ClassDef):
+                for sub in node.body:
+                    if isinstance(sub, ast.FunctionDef) and sub.name.startswith("_") \
+                            and not sub.name.startswith("__") and sub.args.args \
+                            and sub.args.args[0].arg == "self":
+                        seen.setdefault(sub.name, []).append(sub)
+            for sub in ast.walk(node):
+                if isinstance(sub, ast.FunctionDef) and sub.name.startswith("_") \
+                        and not (isinstance(node, ast.ClassDef) and sub in node.body):
+                    seen.setdefault(sub.name, []).append(None)
+    return {k: v[0] for k, v in seen.items() if len(v) == 1 and v[0] is not None}
 
 
 # ---------------------------------------------------------------------------------------------
@@ -568,7 +587,14 @@ def _always_jumps(block):
         return True
     if isinstance(st, ast.If):
         return _always_jumps(st.body) and _always_jumps(st.orelse)
+    if isinstance(st, ast.With):
+        return _always_jumps(st.body)
     return False
+
+
+def _raises_only(block):
+    """a guard whose body just raises (an argument check) is left as a guard"""
+    return len(block) >= 1 and isinstance(block[-1], ast.Raise)
 
 
 def _returns_to_tail(block):
@@ -751,8 +777,9 @@ def _simple_arg(e):
 
 
 class _Inliner:
-    def __init__(self, tree):
+    def __init__(self, tree, external=None):
         self.tree = tree
+        self.external = {}      # private methods of classes of other modules
         self.helpers = {}       # name -> (fn, kind, body, is_method, owner class or None)
         for node in tree.body:
             if isinstance(node, ast.FunctionDef) and self._private(node.name):
@@ -766,6 +793,12 @@ class _Inliner:
                         k, b = _helper_kind(sub)
                         if k:
                             self.helpers[sub.name] = (sub, k, b, True)
+        own = {n.name for n in ast.walk(tree) if isinstance(n, ast.FunctionDef)}
+        for name, fn in (external or {}).items():
+            if name not in own:
+                k, b = _helper_kind(copy.deepcopy(fn))
+                if k in ("proc", "tail", "multi", "expr"):
+                    self.external[name] = (fn, k, b, True)
         self.changed = False
 
     @staticmethod
@@ -779,6 +812,12 @@ class _Inliner:
         if isinstance(f, ast.Attribute) and isinstance(f.value, ast.Name) \
                 and f.value.id == "self" and f.attr in self.helpers and self.helpers[f.attr][3]:
             return self.helpers[f.attr]
+        if isinstance(f, ast.Attribute) and isinstance(f.value, ast.Name) \
+                and f.value.id != "self" and f.attr in self.external:
+            # obj._name(...): a private method of a class defined in another module
+            h = self.external[f.attr]
+            self._receiver = f.value
+            return h
         return None
 
     def run(self):
@@ -1087,6 +1126,9 @@ class _Inliner:
                     targets=[ast.Name(id=nm, ctx=ast.Store())], value=mapping[p]), at))
                 mapping[p] = ast.Name(id=nm, ctx=ast.Load())
         mapping.update(self.fresh(body, list(m)))
+        if fn.name in self.external and self.external[fn.name][0] is fn \
+                and getattr(self, "_receiver", None) is not None:
+            mapping["self"] = copy.deepcopy(self._receiver)
         new = [_Subst(mapping).visit(copy.deepcopy(s)) for s in body]
         for s in pre + new:
             ast.fix_missing_locations(s)
@@ -1388,6 +1430,8 @@ def _stored_names(st):
 def _simple_table_elt(e):
     if isinstance(e, (ast.Constant, ast.Name)):
         return True
+    if isinstance(e, ast.Attribute):
+        return _simple_table_elt(e.value)
     return isinstance(e, (ast.Tuple, ast.List)) and all(_simple_table_elt(x) for x in e.elts)
 
 
@@ -1760,7 +1804,17 @@ def module_constants(tree):
             return True
         if isinstance(e, ast.Name):
             return e.id in funcs or e.id in env
+        if isinstance(e, ast.Attribute):
+            root = e
+            while isinstance(root, ast.Attribute):
+                root = root.value
+            return isinstance(root, ast.Name) and root.id in imported
         return False
+    imported = set()
+    for st in tree.body:
+        if isinstance(st, (ast.Import, ast.ImportFrom)):
+            for al in st.names:
+                imported.add((al.asname or al.name).split(".")[0])
     tables = {}
     for st in tree.body:
         if isinstance(st, ast.Assign) and len(st.targets) == 1 \
@@ -2033,7 +2087,7 @@ def std_spellings(tree):
     return tree
 
 
-def canonicalise(tree, sigs=None):
+def canonicalise(tree, sigs=None, pkg_methods=None):
     for n in ast.walk(tree):
         if hasattr(n, "lineno"):
             n.__dict__["_src_line"] = n.lineno
@@ -2044,7 +2098,7 @@ def canonicalise(tree, sigs=None):
     classes = _namedtuple_classes(tree)
     for _round in range(3):
         before = ast.dump(tree) if _round else None
-        _Inliner(tree).run()
+        _Inliner(tree, pkg_methods).run()
         if classes:
             for f in [n for n in ast.walk(tree) if isinstance(n, ast.FunctionDef)]:
                 split_records(f, classes)
